@@ -266,7 +266,7 @@ def check_descriptors(ctx):
             p = getattr(L.module, "M%d" % i)(kind=1, body=b"abc"); p.body = None; trials.append((p, "length", "M%d" % i, (0, 2), 1))
             for pkt, fname, cname, off, depth in trials:
                 ctx.ev()
-                case = lambda **kw: dict(source=src, phase="pack", **kw)
+                case = lambda **kw: dict(source=src, phase="pack", kind="descriptors", **kw)
                 try:
                     out = pkt.pack()
                     ctx.violation(case(sig="descriptor-bad-value-packed", desc="pack() returned %r" % (out,)))
